@@ -14,7 +14,10 @@ pub struct Case { rej_dir: bool, tru_dir: bool, in_rej: bool, tru: u8, trust_unk
                   pol: usize, bits: u32, tm: u8, host: u8, uri: u8,
                   /// harness only: take the certificate whose validity period has its decisive end close to the wall
                   /// clock (just valid / expired two seconds ago / valid in two hours) rather than days away
-                  near: bool }
+                  near: bool,
+                  /// harness only: what the "different file under the certificate's name" in trusted/ is -- another
+                  /// certificate, an empty file, the certificate cut in half, cut by one byte, or with one byte changed
+                  dk: u8 }
 #[derive(Clone, Debug)]
 pub enum Step { Val(Case), Time { nb: i64, na: i64, now_ms: i64 } }
 pub struct Hist(Vec<Step>);
@@ -107,9 +110,10 @@ fn class(s: StatusCode) -> i128 {
 }
 
 fn from_index(mut i: u64) -> Case {
+    let dk = ((i / 11) % 5) as u8;
     let mut t = |n: u64| { let v = i % n; i /= n; v };
     Case { rej_dir: t(2) == 1, tru_dir: t(2) == 1, in_rej: t(2) == 1, tru: t(3) as u8, trust_unknown: t(2) == 1, skip: t(2) == 1,
-           check_time: t(2) == 1, pol: t(5) as usize, bits: BITS[t(3) as usize], tm: t(3) as u8, host: t(3) as u8, uri: t(3) as u8, near: t(2) == 1 }
+           check_time: t(2) == 1, pol: t(5) as usize, bits: BITS[t(3) as usize], tm: t(3) as u8, host: t(3) as u8, uri: t(3) as u8, near: t(2) == 1, dk }
 }
 const SPACE: u64 = 2 * 2 * 2 * 3 * 2 * 2 * 2 * 5 * 3 * 3 * 3 * 3 * 2;
 
@@ -121,7 +125,17 @@ fn arrange(c: &Case, dir: &PathBuf, cert: &X509, other: &X509, name: &str) {
     if c.tru_dir { std::fs::create_dir_all(&tru).unwrap(); }
     if c.rej_dir && c.in_rej { std::fs::write(rej.join(name), cert.to_der().unwrap()).unwrap(); }
     if c.tru_dir && c.tru == 1 { std::fs::write(tru.join(name), cert.to_der().unwrap()).unwrap(); }
-    if c.tru_dir && c.tru == 2 { std::fs::write(tru.join(name), other.to_der().unwrap()).unwrap(); }
+    if c.tru_dir && c.tru == 2 {
+        let der = cert.to_der().unwrap();
+        let bytes = match c.dk {
+            0 => other.to_der().unwrap(),
+            1 => Vec::new(),
+            2 => der[..der.len() / 2].to_vec(),
+            3 => der[..der.len() - 1].to_vec(),
+            _ => { let mut d = der.clone(); let n = d.len(); d[n - 20] ^= 0x04; d }   // inside the signature: still parses
+        };
+        std::fs::write(tru.join(name), bytes).unwrap();
+    }
 }
 
 fn term1(s: &Step) -> String {
@@ -139,11 +153,11 @@ impl Property for P {
         let mut periods: Vec<Hist> = Vec::new();
         for (nb, na) in PERIODS { periods.push(Hist(instants(nb, na).into_iter().map(|now_ms| Step::Time { nb, na, now_ms }).collect())); }
         if tier == "thorough" { let mut v: Vec<Hist> = (0..SPACE).map(|i| Hist(vec![Step::Val(from_index(i))])).collect(); v.extend(periods); return v; }
-        let base = Case { near: false, rej_dir: true, tru_dir: true, in_rej: false, tru: 1, trust_unknown: false, skip: false, check_time: true, pol: 2, bits: 2048, tm: 0, host: 1, uri: 1 };
+        let base = Case { near: false, dk: 0, rej_dir: true, tru_dir: true, in_rej: false, tru: 1, trust_unknown: false, skip: false, check_time: true, pol: 2, bits: 2048, tm: 0, host: 1, uri: 1 };
         let mut v = vec![base.clone()];
         v.push(Case { tru: 0, ..base.clone() });                       // unknown, untrusted -> rejected store
         v.push(Case { tru: 0, trust_unknown: true, ..base.clone() });  // unknown but trusted by configuration
-        v.push(Case { tru: 2, ..base.clone() });                       // different bytes under the same name
+        for dk in 0..5 { v.push(Case { tru: 2, dk, ..base.clone() }); }  // different bytes under the same name: another cert, empty, cut, changed
         v.push(Case { in_rej: true, ..base.clone() });
         v.push(Case { bits: 1024, ..base.clone() });
         v.push(Case { bits: 4096, pol: 0, ..base.clone() });
